@@ -130,6 +130,11 @@ type Rec struct {
 	// write finish). It is <= the instant the library's write returned, hence <= the instant the
 	// reply timer was armed: "timeout - PayloadAt >= T3" is an exact lower bound on correct code.
 	PayloadAt sync.Map
+
+	// WroteAt: for each peer serial, the instant the peer's write of that frame RETURNED (on net.Pipe:
+	// the library's recv goroutine has taken every byte of it; it dispatches the frame next, on the
+	// same goroutine).
+	WroteAt sync.Map
 }
 
 func (r *Rec) Add(e Entry) {
@@ -357,6 +362,9 @@ func (p *Peer) Send(mk func(n int64) Frame) (int64, Frame, error) {
 	n, f := p.Rec.AddSent(mk)
 	_ = p.Conn.SetWriteDeadline(time.Now().Add(5 * time.Second))
 	_, err := p.Conn.Write(f.Wire())
+	if err == nil {
+		p.Rec.WroteAt.Store(n, time.Now())
+	}
 	return n, f, err
 }
 
